@@ -396,8 +396,8 @@ func buildRestoreNode(p *Program, tier string, which string) ([]*Unit, []UnitErr
 // ---- label classes of the shared restorer units ----
 
 var (
-	rePosSpace = regexp.MustCompile(`#(ensures|join\d+\.\d+|loop\d+-(entry|preserve(\.\d+)?)):(foreach_)?(inv|cursor_monotone|lines_prefix|comments_prefix|lines_array_old_or_fresh|count|backing|old_rows|frame_new)$|#call:.*:inv@\d+$|#pos:|#frame|#loop\d+-(entry|preserve(\.\d+)?):(count|length|cursor|offsets|prefix|at_newline|inv|sorted|pos|last|rest|lines_prefix|comments_prefix|cursor_monotone|comments|lines|untouched|index|lines_array_old_or_fresh)$|#ensures:(lines_array_old_or_fresh|added|cursor|offsets|prefix|at_newline|at_newline_kept|sorted|last|single_line_is_noop|covers_cursor|covers_lines|covers_comments|positive_or_empty|ends_at_newline|empty_is_noop)$`)
-	reMaps     = regexp.MustCompile(`#(ensures|join\d+\.\d+|loop\d+-(entry|preserve(\.\d+)?)):(foreach_)?(maps|mapped|mapped_back|mapped_self|ast_map_grows|dst_map_grows|fresh_unless_duplicate|result_not_nil)$|#call:.*:maps@\d+$|#maps:created_node_mapped`)
+	rePosSpace = regexp.MustCompile(`#(ensures|join\d+\.\d+|loop\d+-(entry|preserve(\.\d+)?)):(foreach_)?(inv|cursor_monotone|lines_prefix|comments_prefix|lines_array_old_or_fresh|count|backing|old_rows|frame_new)$|#call:.*:(inv|at_cursor)@\d+$|#pos:|#comments:|#frame|#loop\d+-(entry|preserve(\.\d+)?):(count|length|cursor|offsets|prefix|at_newline|inv|sorted|pos|last|rest|lines_prefix|comments_prefix|cursor_monotone|comments|lines|untouched|index|lines_array_old_or_fresh)$|#ensures:(lines_array_old_or_fresh|added|cursor|offsets|prefix|at_newline|at_newline_kept|sorted|last|single_line_is_noop|covers_cursor|covers_lines|covers_comments|positive_or_empty|ends_at_newline|empty_is_noop|registered_at_slash)$`)
+	reMaps     = regexp.MustCompile(`#(ensures|join\d+\.\d+|loop\d+-(entry|preserve(\.\d+)?)):(foreach_)?(maps|mapped|mapped_back|mapped_self|ast_map_grows|dst_map_grows|fresh_unless_duplicate|fresh_unless_known|result_not_nil)$|#call:.*:maps@\d+$|#maps:created_node_mapped`)
 	reFields   = regexp.MustCompile(`#fields:|#loop\d+-(entry|preserve(\.\d+)?):foreach_(elems|length)$`)
 	reTape     = regexp.MustCompile(`#tape:`)
 	reSpaces   = regexp.MustCompile(`#tape:(qualified\.)?(before_first|after_last|two_spaces|no_decorations)$`)
@@ -408,7 +408,8 @@ func restoreUnitsOf(p *Program, tier string, helpers bool) ([]*Unit, []UnitError
 	var us []*Unit
 	var es []UnitError
 	if helpers {
-		us, es = buildFuncUnits(p, []string{fr("applySpace"), fr("applyDecorations"), fr("applyLiteral"), fr("fileSize")}, nil)
+		us, es = buildFuncUnits(p, []string{fr("applySpace"), fr("applyDecorations"), fr("addCommentField"), fr("applyLiteral"), fr("fileSize")},
+			map[string]*UnitOpts{fr("applyDecorations"): commentsRegistrationOpts(), fr("addCommentField"): commentsRegistrationOpts()})
 	}
 	us2, es2 := buildRestoreNode(p, tier, "")
 	return append(us, us2...), append(es, es2...)
@@ -440,10 +441,12 @@ func init() {
 		Build: func(p *Program, tier string) ([]*Unit, []UnitError) {
 			us, es := restoreUnitsOf(p, tier, false)
 			us2, es2 := buildDecorateNode(p, tier)
-			return append(us, us2...), append(es, es2...)
+			us3, es3 := buildFuncUnits(p, []string{fd("decorateSelectorExpr"), pkgDecorator + ".mergeDecorations"}, nil)
+			return append(append(us, us2...), us3...), append(append(es, es2...), es3...)
 		},
 		Select: func(n string) bool {
-			return reMaps.MatchString(n) || strings.Contains(n, "#fields:") || strings.Contains(n, "#maps:registered_before_recursion")
+			return reMaps.MatchString(n) || strings.Contains(n, "#fields:") || strings.Contains(n, "#maps:registered_before_recursion") ||
+				strings.Contains(n, "decorateSelectorExpr#") || strings.Contains(n, "mergeDecorations#")
 		},
 		Siblings: "C12 (position space), C04 (tape), C06 (duplicates)",
 		Assumptions: []string{
